@@ -40,6 +40,8 @@ def dims(lo=1, hi=6):
 # quaternion arrays
 
 PATTERNS = ("generic", "int", "pure_imag", "axis", "sparse", "unit", "scaled", "zero")
+WEIGHTED_PATTERNS = ("generic",) * 4 + ("int",) * 2 + ("pure_imag",) * 2 + ("sparse",) * 2 + ("scaled",) * 2 + (
+    "axis", "unit", "zero")
 
 
 def _arr(shape, elements):
@@ -50,7 +52,7 @@ def _arr(shape, elements):
 def qarray(draw, m, n, pattern=None, emin=0, emax=0):
     """(m,n,4) array following one of the entry patterns; returns (A, pattern)."""
     if pattern is None:
-        pattern = draw(st.sampled_from(PATTERNS))
+        pattern = draw(st.sampled_from(WEIGHTED_PATTERNS))
     shape = (m, n, 4)
     if pattern == "zero":
         A = np.zeros(shape)
